@@ -17,8 +17,11 @@ for ln in open(LOG):
     m = re.match(r'(\S+)\s+(C\d+)\s+(CAUGHT|missed) exit=(\d) \d+s '
                  r'(?:(\d+)/(\d+) runs violate )?(?:signature=(\S+))?', ln)
     if m:
-        rows.setdefault(m.group(1), []).append(
-            (m.group(2), m.group(3), m.group(5), m.group(6), m.group(7)))
+        # a later line for the same (change, check) replaces the earlier one
+        lst = rows.setdefault(m.group(1), [])
+        lst[:] = [x for x in lst if x[0] != m.group(2)]
+        lst.append((m.group(2), m.group(3), m.group(5), m.group(6),
+                    m.group(7)))
 
 ids = sorted(x for x in os.listdir('/verif/seeded')
              if os.path.isdir('/verif/seeded/' + x))
@@ -117,6 +120,16 @@ unchanged tree was re-checked on several seeds (tools/precommit.sh).
   a constructor argument repeating the option value, a top-level tuple in the
   target, a forced reload without a main file after a same-mtime edit (caught
   by 1 run of 2264, then given a directed prefix).
+* **Round 7** (12): 2 of the 11 in-scope ones missed at first - an alias
+  test through `lstrip('rule:')` that only bites when the new name starts
+  with r, u, l, e or ':' (the name pool now varies first letters) and
+  `sort_keys=True` on the form payload (targets now hold dicts with mixed
+  key types). `C10-file-rules-snapshot-aliased`, which needs two consecutive
+  directory-only rebuilds, was caught by 1-3 runs only and got a directed
+  history prefix. `C16-reply-not-sniffed` is **out of scope and stays
+  uncaught**: it differs from the unchanged library only on replies whose
+  decoding depends on charset sniffing (a byte-order mark with no declared
+  charset), which §4 C16 leaves unconstrained.
 * `C11-addcheck-flag-toggle` (round 2) needs an option toggled on a live conf
   between two loads of one enforcer, outside C11's quantifier; the C11 check
   does not generate toggles. The same change makes the merged OR-chain grow on
